@@ -1029,6 +1029,84 @@ async fn prefix_case(out: &mut Out, rng: &mut Rng) {
     out.case(&format!("prefix:{:?}:{}:{}", pfx, n, fail_at), true);
 }
 
+
+/// A SLOW store: one store call of a flush takes `stall` of virtual time (nothing fails, nothing
+/// is lost by the store), the mailbox is far below its capacity, no back-pressure.  Latency is not
+/// an event of the model (M4b: only the order of events matters), so the model predicts what a
+/// fast store gives; the oracle (real code only) is C12's third sentence: after a clean shutdown
+/// every update handed to the sink is in a listed segment — a flush that is abandoned while it
+/// waits must not take the accepted updates with it.  Durations sit around the time-outs a
+/// storage client typically uses.
+async fn stall_case(out: &mut Out, rng: &mut Rng, cap: u64, corpus: Option<u64>) {
+    let rid = 1;
+    let stall_ms = corpus.unwrap_or_else(|| *rng.pick(&[1u64, 999, 1_000, 4_999, 5_000, 5_001, 9_999, 10_001, 29_999, 30_001, 60_001, 600_000]));
+    let held_call = if corpus.is_some() { 1 } else { rng.below(4) };
+    let cfg = WriteBufferConfig { flush_interval: Duration::from_secs(3600), max_size_bytes: 1 << 30, max_deltas: 2, backpressure_threshold_bytes: 1 << 40, compression_enabled: false };
+    let store = FaultStore::new(&[]);
+    store.inner.lock().unwrap().record = false;
+    let integ = StreamingIntegration::with_store(Arc::new(store.clone()), streaming_cfg(&cfg), rid);
+    let (handles, sender) = match integ.start_workers().await {
+        Ok(x) => x,
+        Err(e) => {
+            out.violation("C12:workers:start-failed", &format!("start_workers failed on an empty store: {}", e), json!(null));
+            return;
+        }
+    };
+    // `held_call` calls pass, the next one waits
+    let sem = Arc::new(tokio::sync::Semaphore::new(held_call as usize));
+    {
+        let mut g = store.inner.lock().unwrap();
+        g.calls = 0;
+        g.hold = Some(sem.clone());
+    }
+    let mut text = xnew_line(rid, &cfg, cap, 0, &[]);
+    out.op(text.clone(), "ok".into());
+    let mut sent: Vec<Upd> = Vec::new();
+    for i in 0..2u64 {
+        let u = lww_upd(&format!("s{}", i), format!("v{}", i).as_bytes(), 20 + i, rid, false);
+        sender.send(delta_of(&u, rid)).expect("bridge alive");
+        let l = sd_line("ASEND", &u);
+        text.push_str(&format!(";{}", l));
+        out.op(l, "ok".into());
+        sent.push(u);
+    }
+    // the bridge delivers the batch, the actor starts the flush (2 = max_deltas) and waits inside call `held_call`
+    tokio::time::sleep(Duration::from_millis(25)).await;
+    out.op("ADRAIN".into(), "ok".into());
+    tokio::time::sleep(Duration::from_millis(stall_ms)).await;
+    // the store answers
+    store.inner.lock().unwrap().hold = None;
+    sem.add_permits(1 << 20);
+    tokio::time::sleep(Duration::from_millis(25)).await;
+    out.op("ARUN".into(), format!("calls={} segs={}", store.calls(), segs_of(&store)));
+    // one more batch after the stall
+    for i in 2..4u64 {
+        let u = lww_upd(&format!("s{}", i), format!("v{}", i).as_bytes(), 20 + i, rid, false);
+        sender.send(delta_of(&u, rid)).expect("bridge alive");
+        let l = sd_line("ASEND", &u);
+        text.push_str(&format!(";{}", l));
+        out.op(l, "ok".into());
+        sent.push(u);
+    }
+    tokio::time::sleep(Duration::from_millis(25)).await;
+    out.op("ADRAIN".into(), "ok".into());
+    out.op("ARUN".into(), format!("calls={} segs={}", store.calls(), segs_of(&store)));
+    handles.shutdown().await;
+    out.op("ASTOPBRIDGE".into(), "ok".into());
+    out.op("AREQSHUTDOWN".into(), "ok".into());
+    out.op("ARUN".into(), format!("calls={} segs={}", store.calls(), segs_of(&store)));
+    let (stored, miss) = missing_of(&store, &sent, rid).await;
+    out.op("AMISSING".into(), format!("stored={} missing={} {}", stored, miss.len(), miss.join(" ")));
+    if !miss.is_empty() {
+        out.violation("C12:workers:update-lost-by-slow-store",
+            &format!("store call {} of a flush took {} ms (no error, no fault, mailbox far below capacity, no back-pressure): after a clean shutdown {} update(s) handed to the sink are in no listed segment", held_call, stall_ms, miss.len()),
+            json!({"workload": text, "stalled_store_call": held_call, "stall_ms": stall_ms, "missing": miss}));
+    }
+    out.count(&format!("x:stall:{}", if stall_ms < 1000 { "<1s" } else if stall_ms <= 5000 { "1s..5s" } else if stall_ms <= 30_000 { "5s..30s" } else { ">30s" }));
+    out.count("x:case:workers:slow-store");
+    out.case(&format!("stall:{}:{}", held_call, stall_ms), true);
+}
+
 pub async fn run_all(out: &mut Out, rng: &mut Rng, n: u64, paused: bool) {
     let cap = match source_channel_capacity() {
         Some(c) => c,
@@ -1058,6 +1136,7 @@ pub async fn run_all(out: &mut Out, rng: &mut Rng, n: u64, paused: bool) {
         }
         capacity_case(out, cap).await;
         start_failure_case(out).await;
+        stall_case(out, &mut Rng::new(0xC12), cap, Some(61_000)).await;
         for i in 0..n {
             if i % 4 == 0 {
                 let mut r = rng.fork();
@@ -1071,6 +1150,10 @@ pub async fn run_all(out: &mut Out, rng: &mut Rng, n: u64, paused: bool) {
             if i % 2 == 0 {
                 let mut r = rng.fork();
                 lives_case(out, &mut r, cap).await;
+            }
+            if i % 5 == 1 {
+                let mut r = rng.fork();
+                stall_case(out, &mut r, cap, None).await;
             }
         }
     }
